@@ -2,103 +2,28 @@
   sydriver — line protocol front end for the executable model.
   One request per line on stdin, one response per line on stdout.
   Imports model files only (no Mathlib, no Lemmas) so that it links natively.
+  The first token `<area>.<op>` selects the handler.
 -/
-import SyModel.Delta.Stream
-open SyModel SyModel.Delta
+import Driver.Util
+import Driver.Delta
 
 namespace Driver
 
-def hexVal (c : Char) : Option Nat :=
-  if '0' ≤ c ∧ c ≤ '9' then some (c.toNat - '0'.toNat)
-  else if 'a' ≤ c ∧ c ≤ 'f' then some (c.toNat - 'a'.toNat + 10)
-  else none
-
-def unhexGo : List Char → List UInt8 → Option Bytes
-  | [], acc => some acc.reverse
-  | [_], _ => none
-  | a :: b :: t, acc =>
-    match hexVal a, hexVal b with
-    | some x, some y => unhexGo t (UInt8.ofNat (x * 16 + y) :: acc)
-    | _, _ => none
-
-/-- `-` is the empty string. -/
-def unhex (s : String) : Option Bytes :=
-  if s == "-" then some [] else unhexGo s.toList []
-
-def hexDigit (n : Nat) : Char :=
-  if n < 10 then Char.ofNat (n + '0'.toNat) else Char.ofNat (n - 10 + 'a'.toNat)
-
-def hex (b : Bytes) : String :=
-  if b.isEmpty then "-"
-  else String.ofList (b.foldr (fun x acc => hexDigit (x.toNat / 16) :: hexDigit (x.toNat % 16) :: acc) [])
-
-def showOp : Op → String
-  | .copy o s => s!"C{o},{s}"
-  | .data d => s!"D{hex d}"
-
-def showOps (ops : List Op) : String :=
-  if ops.isEmpty then "-" else ";".intercalate (ops.map showOp)
-
-def parseOp (s : String) : Option Op :=
-  match s.toList with
-  | 'C' :: rest =>
-    match (String.ofList rest).splitOn "," with
-    | [a, b] => do let o ← a.toNat?; let z ← b.toNat?; pure (.copy o z)
-    | _ => none
-  | 'D' :: rest => do let d ← unhex (String.ofList rest); pure (.data d)
-  | _ => none
-
-def parseOps (s : String) : Option (List Op) :=
-  if s == "-" then some [] else (s.splitOn ";").mapM parseOp
-
-def showBlocks (bs : List (Block Bytes)) : String :=
-  if bs.isEmpty then "-" else ";".intercalate (bs.map fun c => s!"{c.offset},{c.size},{c.weak}")
-
-instance : BEq Bytes := inferInstance
-
-def handle (toks : List String) : String :=
+def dispatch (toks : List String) : String :=
   match toks with
-  | ["adler.hash", h] =>
-    match unhex h with
-    | some d => toString (hashBytes d)
-    | none => "bad-op"
-  | ["adler.roll", n, h, k] =>
-    match n.toNat?, unhex h, k.toNat? with
-    | some n, some d, some k =>
-      if n = 0 ∨ d.length < k + n then "bad-op"
-      else toString (rollN n (Adler.ofBlock (d.take n)) d k).digest
-    | _, _, _ => "bad-op"
-  | ["delta.checksums", bs, old] =>
-    match bs.toNat?, unhex old with
-    | some bs, some old => if bs = 0 then "bad-op" else showBlocks (checksums id bs old)
-    | _, _ => "bad-op"
-  | ["delta.gen", kind, bs, chunk, old, new] =>
-    match bs.toNat?, chunk.toNat?, unhex old, unhex new with
-    | some bs, some chunk, some old, some new =>
-      if bs = 0 then "bad-op"
-      else
-        let cs := checksums id bs old
-        if kind == "mem" then showOps (genMem id cs bs new)
-        else if kind == "stream" then
-          match genStream id cs bs chunk new with
-          | some ops => showOps ops
-          | none => "bad-op"
-        else "bad-op"
-    | _, _, _, _ => "bad-op"
-  | ["delta.apply", old, ops] =>
-    match unhex old, parseOps ops with
-    | some old, some ops =>
-      match applyOps old ops with
-      | some r => s!"ok {hex r}"
-      | none => "err eof"
-    | _, _ => "bad-op"
-  | _ => "bad-op"
+  | [] => "bad-op"
+  | cmd :: _ =>
+    let area := (cmd.splitOn ".").headD ""
+    let r : Option String :=
+      if area == "adler" || area == "delta" then Driver.Delta.handle toks
+      else none
+    r.getD "bad-op"
 
 partial def loop (hin : IO.FS.Stream) (hout : IO.FS.Stream) : IO Unit := do
   let line ← hin.getLine
   if line.isEmpty then return ()
   let toks := (line.trimAscii.toString.splitOn " ").filter (· ≠ "")
-  hout.putStrLn (handle toks)
+  hout.putStrLn (dispatch toks)
   hout.flush
   loop hin hout
 
